@@ -140,9 +140,15 @@ func (g *gramGen) term(depth int) *Sexp {
 // sopts: the options of a generated Sequence - mostly none; in the streams that name alternatives (C04, C06) one sequence in
 // four carries a Name of its own (Sequence.Name: the not-found error at the sequence's own start is replaced, seq.go Parse)
 func (g *gramGen) sopts() *Sexp {
-	if g.nameAlts && !g.noNameSingle && g.rng.Intn(4) == 0 {
-		g.nameCount++
-		return LA("o", A("none"), HS("s"+strconv.Itoa(g.nameCount)), A("0"), A("-"))
+	if g.nameAlts && !g.noNameSingle {
+		switch g.rng.Intn(8) {
+		case 0, 1:
+			g.nameCount++
+			return LA("o", A("none"), HS("s"+strconv.Itoa(g.nameCount)), A("0"), A("-"))
+		case 2:
+			// HandleResult(ReturnSingle()): a sequence with exactly one child returns that child
+			return LA("o", A("none"), A("-"), A("1"), A("-"))
+		}
 	}
 	return noOpts
 }
